@@ -459,7 +459,40 @@ func (e *env) newStream(peerId string, mode, failAt int) *fakeStream {
 
 // closeHook is registered with the pool; it runs after the stream has been
 // removed from the indexes, so a send that starts after endedT cannot find it.
+var hookProbeFired atomic.Bool
+
 func (e *env) closeHook(streamId uint32, peerId string, tags []string) {
+	// The hook is documented to run outside the pool lock, so a hook may use the pool (the in-repo
+	// hook user, pubsub, takes a lock that is held around AddTagsCtx elsewhere). A pool that holds its
+	// lock across the hook parks right here and every later pool call is then reported by the call
+	// watchdog (added after seeded change C19-2 was missed).
+	if e.pool != nil && !hookProbeFired.Load() {
+		done := make(chan struct{})
+		go func() {
+			_ = e.pool.Streams("verif-close-hook-probe")
+			close(done)
+		}()
+		t := time.NewTimer(callWatchdog)
+		select {
+		case <-done:
+			t.Stop()
+		case <-t.C:
+			// the probe can only be parked on the pool's own lock, which the goroutine running this hook holds
+			dump := goroutineDump()
+			parked := false
+			for _, g := range strings.Split(dump, "\n\n") {
+				if strings.Contains(g, "(*streamPool).Streams") && strings.Contains(g, "closeHook") && isParked(goroutineState(g)) {
+					parked = true
+				}
+			}
+			if !parked {
+				e.c.Inconclusive("close-hook probe watchdog fired but the probe is not parked inside the pool")
+			} else if hookProbeFired.CompareAndSwap(false, true) {
+				e.c.Violation("close-hook:pool-lock-held-across-hook", "a pool call made from the stream close hook does not return: the pool holds its lock while the hook runs, so any hook that takes a lock also held around a pool call (or uses the pool) blocks every later send",
+					map[string]any{"goroutines": trim(dump, 6000)})
+			}
+		}
+	}
 	e.mu.Lock()
 	defer e.mu.Unlock()
 	var fs *fakeStream
